@@ -34,19 +34,23 @@ RULE = ("seven routines, one case = one call with explicit arguments and explici
         "160, 140 hyperedges per size; 22-26 hyperedges of one size for the shuffles). After every inplace=False call the RESULT is mutated (in-place "
         "shuffle, add / remove hyperedge, metadata) and the argument is inspected again. Plus a malformed stream "
         "(both/neither of order and size, p outside [0,1], size larger than the node set, invalid scale-free argument "
-        "combinations, activity vector too short, order above N). "
+        "combinations, activity vector too short, order above N; the number of the ValueError of the validation is compared "
+        "with the model's first failing check). For scale_free_hypergraph the COMPLETE sequence of np.random calls is compared "
+        "with the trace model; for add_random_edge(s) / random_shuffle(_all_orders) also the node, hypergraph-level and incidence "
+        "metadata tables of the argument and of the result. "
         "A case is distinct by routine + arguments + recorded draws; non-trivial: random = a duplicate sample collapsed or "
         ">= 2 sizes; scale-free = >= 2 hyperedges; HOAD = at least one hyperlink emitted; add = a hyperedge was added or "
         "re-inserted on a weighted/metadata input; shuffle = some hyperedge replaced and some kept, or p = 0 on a weighted "
         "input with metadata")
 ASSUMPTIONS = [
     "sampler contracts (trusted): random.sample(pop,k) and np.random.choice(pop,k,replace=False) return k distinct members of pop; random.random() in [0,1); seeding a source determines its later draws",
-    "requests to the rejection loops are feasible (count <= C(n,size)); termination with probability one is not proved, the harness bounds every call by an alarm",
+    "requests to the rejection loops are feasible (count <= C(n,size)): C14_saturation proves that a larger request is met by NO draw list and C14_rejection_loop that the loop stops at the first prefix holding k distinct hyperedges; termination with probability one (a statement about the distribution of the draws) is outside, the harness bounds every call by an alarm",
     "labels are mapped to their rank in sorted order (labels of one hypergraph are mutually comparable); weights are small integers; metadata are tokens {'k': t}",
     "HOADmodel: admissible = every activity vector has AT LEAST N entries (surplus ignored) and order <= N; shorter vectors / larger orders are compared with the model's `raised` only; activities are dyadic so that `act > random()` is exact",
     "p is a dyadic float or an exact rational (Fraction / Decimal / bool) so that int(p * num_edges) equals the exact floor",
     "value types: which objects a routine takes and what they mean was measured on the unchanged tree with Python 3.12 / NumPy 2.5 (operator.index, int(), `len < x`, random.seed, np.random.seed are Python's / NumPy's own); the harness recomputes the meaning with plain Python, the Lean model (C14Raw.lean) decides it from a value-typed token",
-    "node / incidence metadata are not in the model (node metadata are checked by the oracles only)",
+    "node, hypergraph-level and incidence metadata are tokens in the model HGM (Model/C14Meta.lean); the instances carry a hypergraph-level entry 'k' and incidence entries that are a deterministic function of the spec; the other entries of the hypergraph-level dict ('weighted', 'type') are compared as text by the oracles only",
+    "scale_free_hypergraph: the Spearman test and the exponential values are floats outside the model - the trace model fixes the NUMBER and ORDER of the np.random calls (exponential once per size, num_shuffles swaps, Spearman swaps only with a corr_target != 1 after the first size, every choice with its size)",
     "object identity: hg.copy() yields a new object (model: finishObj allocates a fresh id); its depth is checked by mutating the result",
 ]
 TRUSTED = ["recording of draws by attribute patching (hgxv.Recorder): the routines look up random.sample, random.random, "
@@ -59,6 +63,21 @@ BUDGET_S = {"quick": 50, "thorough": 800}
 
 class Timeout(BaseException):
     pass
+
+
+SF_MESSAGES = {"Cannot shuffle if correlated == False": 1, "Cannot shuffle negative number of times": 2,
+               "Correlation must be between 0 and 1": 3, "Cannot provide correlation value if correlated == False": 4,
+               "Cannot provide both correlation value and number of shuffles": 5, "Must provide scale for each edge size": 6,
+               "Must provide number of edges for each edge size": 7, "Number of edges must be non-negative": 8}
+ARG_MESSAGES = {"Order and size cannot be both specified.": 1, "Order or size must be specified.": 2,
+                "p must be between 0 and 1.": 3}
+
+
+def err_code(text, table):
+    """number of the documented ValueError of the validation (`sfError` / `argError` of the model), 'none' for any
+    other exception (raised later, by the sampler)"""
+    kind, _, msg = str(text).partition(": ")
+    return str(table[msg.strip()]) if kind == "ValueError" and msg.strip() in table else "none"
 
 
 def limited(f, secs=8.0):
@@ -434,7 +453,76 @@ def build(spec):
         h.remove_node(lab(tn), keep_edges=False)
     for t in temps:
         h.remove_edge(tuple(lab(n) for n in t))
+    # hypergraph-level and incidence metadata (a deterministic function of the spec, no draw of the case generator)
+    try:
+        hm, inc = extra_md(spec)
+        if hm:
+            h.set_attr_to_hypergraph_metadata("k", hm)
+        for j, pos, tok in inc:
+            nodes = spec["edges"][j][0]
+            h.set_incidence_metadata(tuple(lab(n) for n in nodes), lab(nodes[pos]), {"k": tok})
+    except Exception:  # noqa: BLE001 - a changed class may refuse; the instance is then simply without these tables
+        pass
     return h
+
+
+def extra_md(spec):
+    import zlib
+    x = zlib.crc32(repr((spec["labels"], spec["edges"], spec["weighted"])).encode())
+    hm = x % 4
+    inc = []
+    if (x >> 2) % 3 != 0:
+        for j, (nodes, w, tok) in enumerate(spec["edges"][:3]):
+            if nodes and (x >> (4 + j)) % 2:
+                inc.append((j, (x >> (8 + j)) % len(nodes), 1 + (x >> (12 + 2 * j)) % 5))
+    return hm, inc
+
+
+def meta_view(h, rank):
+    """the tables the content does not show: node metadata, hypergraph-level metadata, incidence metadata
+    ([node rank, tok] sorted; token of the 'k' entry; [tok, node rank, hyperedge ranks..] sorted; the other entries of the
+    hypergraph-level dict as text)"""
+    def rk(x):
+        x = norm(x)
+        try:
+            return rank.get(x, 10 ** 6 + (abs(hash(repr(x))) % 1000))
+        except TypeError:
+            return 10 ** 6 + 999
+    try:
+        nm = sorted([rk(x), tok_of(h.get_node_metadata(x))] for x in h.get_nodes())
+        hmd = h.get_hypergraph_metadata()
+        hm = tok_of({"k": hmd["k"]}) if isinstance(hmd, dict) and "k" in hmd else (0 if isinstance(hmd, dict) else 999)
+        rest = repr(sorted((repr(k), repr(v)) for k, v in hmd.items() if k != "k")) if isinstance(hmd, dict) else repr(hmd)
+        im = sorted([tok_of(v), rk(n)] + sorted(rk(y) for y in e) for (e, n), v in h.get_all_incidences_metadata().items())
+    except Exception as ex:  # noqa: BLE001 - an observation
+        return ("exc", type(ex).__name__, str(ex)[:80], "")
+    return (nm, hm, im, rest)
+
+
+def show_meta(mv):
+    return f"{hgxv.enc_lists(mv[0])} {mv[1]} {hgxv.enc_lists(mv[2])}"
+
+
+def loadm_line(mv):
+    return "loadm " + show_meta(mv)
+
+
+def call_result_m(arg_after, ret, rank):
+    def one(h):
+        return show_snap(snapshot(h, rank)) + " M " + show_meta(meta_view(h, rank))
+    return "A " + one(arg_after) + " R " + ("none" if ret is None else one(ret))
+
+
+def check_meta(ctx, case, what, mv_before, hg, ret, rank, inplace, result_too):
+    """'leave everything else intact' / 'leave their argument untouched' for the metadata tables"""
+    mv_arg = meta_view(hg, rank)
+    if not inplace and mv_arg != mv_before:
+        ctx.violation(case, f"{what}(inplace=False) changed the metadata tables of its argument (node md, hypergraph md, "
+                            f"incidence md, other hypergraph entries): {mv_before} -> {mv_arg}")
+    if result_too:
+        mv_out = mv_arg if inplace else (meta_view(ret, rank) if ret is not None else None)
+        if mv_out is not None and mv_out != mv_before:
+            ctx.violation(case, f"{what}: node / hypergraph-level / incidence metadata changed: {mv_before} -> {mv_out}")
 
 
 def prepare(case):
@@ -853,6 +941,12 @@ def check_scale_free(ctx, drv, case, secs=8.0):
             a = drv.ask(line + "-")
             if a != "rej":
                 ctx.disagree(case, f"implementation rejects, model answers {a!r}")
+            if not vals:
+                # WHICH check of the validation refuses (the checks in the order of the code)
+                e = drv.ask(f"sferr {hgxv.enc_list(sizes)} {hgxv.enc_list(counts)} " + tail + f"{int(shuffles)}")
+                ctx.count("validation_paths_compared")
+                if e != err_code(h, SF_MESSAGES):
+                    ctx.disagree(case, f"validation: the model's first failing check is {e!r}, the implementation raised {h!r}")
         return
     nodes = sorted(plain(h.get_nodes()))
     edges = sorted(tuple(plain(e)) for e in h.get_edges())
@@ -898,6 +992,34 @@ def check_scale_free(ctx, drv, case, secs=8.0):
     a = drv.ask(line + hgxv.enc_listss(groups))
     if a != want:
         ctx.disagree(case, f"{line.split()[0]}: model {a!r}, implementation {want!r}")
+    # the COMPLETE sequence of np.random calls (exponential once per size, the swap choices of num_shuffles / of the
+    # Spearman loop, every hyperedge choice with the size it was asked with) against the trace model `scaleFreeTrace`
+    try:
+        events, n_swaps, n_choices = [], 0, 0
+        for (src, name, a_, k_, r) in log:
+            if (src, name) == ("np", "exponential"):
+                events.append([0, int(a_[1] if len(a_) > 1 else k_["size"])])
+            elif (src, name) == ("np", "choice"):
+                sz = int(k_["size"] if "size" in k_ else a_[1])
+                if isinstance(a_[0], (int, np.integer)) or (isinstance(a_[0], np.ndarray) and a_[0].ndim == 0):
+                    events.append([1] + [int(x) for x in r])
+                    n_swaps += 1
+                    if sz != 2 or int(a_[0]) != n:
+                        events[-1] = [9]
+                else:
+                    events.append([2, sz] + [int(x) for x in r])
+                    n_choices += 1
+    except Exception as ex:     # an argument of a recorded call the trace cannot express
+        ctx.disagree(case, f"np.random call with unexpected arguments: {type(ex).__name__}: {ex}")
+        return
+    tline = (f"sftrace {n} {hgxv.enc_list(sizes)} {hgxv.enc_list(counts)} " + tail + f"{int(shuffles)} "
+             + hgxv.enc_lists(events))
+    twant = want[:-len(" ret 1")] + f" ex {len(sizes)} sw {n_swaps} ch {n_choices}"
+    ta = drv.ask(tline)
+    ctx.count("scale_free_trace_lines")
+    ctx.count("scale_free_swap_calls", n_swaps)
+    if ta != twant:
+        ctx.disagree(case, f"sftrace (np.random calls {events}): model {ta!r}, implementation {twant!r}")
 
 
 def gen_scale_free(rng, malformed=False):
@@ -1143,6 +1265,7 @@ def check_add(ctx, drv, case, secs=8.0):
     if st0 == "timeout":
         return "timeout"
     before = snapshot(hg, rank)
+    mv_before = meta_view(hg, rank)
     before_inc = incidence_view(hg)
     kw0 = dict(case["kwargs"])
     kinds = case.get("kinds", {})
@@ -1197,6 +1320,11 @@ def check_add(ctx, drv, case, secs=8.0):
             a = drv.batch([load_line(before), cmd + "-"])[1]
             if not a.startswith("rej"):
                 ctx.disagree(case, f"implementation rejects, model answers {a!r}")
+            if not vals:
+                e = drv.ask(f"argerr {opt(order)} {opt(size)} 0 0")
+                ctx.count("validation_paths_compared")
+                if e != err_code(ret, ARG_MESSAGES):
+                    ctx.disagree(case, f"validation: the model's first failing check is {e!r}, the implementation raised {ret!r}")
         return
     if seed_rej:
         ctx.disagree(case, f"random.seed refuses a seed of this type, the implementation accepted {seed_obj!r}")
@@ -1243,6 +1371,9 @@ def check_add(ctx, drv, case, secs=8.0):
                     ctx.violation(case, f"hyperedge {e} was {r}, now {out[2][e]} (not a re-insertion of a size-{s} hyperedge)")
                 else:
                     changed = changed or before[0] or r[1] != 0
+    check_meta(ctx, case, what, mv_before, hg, ret, rank, inplace, True)
+    ctx.count("instances_with_hypergraph_md", 1 if mv_before[0] != "exc" and mv_before[1] else 0)
+    ctx.count("instances_with_incidence_md", 1 if mv_before[0] != "exc" and mv_before[2] else 0)
     # ---- correspondence
     draws = [[rank.get(norm(x), 10 ** 6) for x in r] for (src, name, a, k, r) in log if (src, name) == ("py", "sample")]
     bad = unexpected_sources(log, {("py", "sample"), ("py", "seed")})
@@ -1260,6 +1391,14 @@ def check_add(ctx, drv, case, secs=8.0):
         if many:
             a, o = drv.batch([load_line(before), cmd + hgxv.enc_lists(draws), f"obj 0 {int(inplace)}"])[1:]
             want += " ret 1"
+            # draw accounting (`collectUsed`): on the recorded draws FOLLOWED by further ones the loop `while len(edges) <
+            # k` of the model stops exactly where the implementation stopped, with k hyperedges in its set
+            kc = slot_meaning(case, "k", case["k"], py_loop)
+            if isinstance(kc, int) and not isinstance(kc, bool) and 0 <= kc <= 200:
+                extra = [list(reversed(d)) for d in draws[:2]] + [sorted(rank.values())[:s]]
+                u = drv.ask(f"used {kc} " + hgxv.enc_lists(draws + extra))
+                if u != f"{len(draws)} {kc}":
+                    ctx.disagree(case, f"used: model takes/collects {u!r}, implementation took {len(draws)} draws for {kc} hyperedges")
         else:
             a, o = drv.batch([load_line(before), cmd + (hgxv.enc_list(draws[0]) if len(draws) == 1 else "-"),
                               f"obj 0 {int(inplace)}"])[1:]
@@ -1269,6 +1408,16 @@ def check_add(ctx, drv, case, secs=8.0):
             ctx.disagree(case, f"{cmd.split()[0]}: model {a!r}, implementation {want!r}")
         if o != obj_kind(hg, ret):
             ctx.disagree(case, f"{what}: the model hands the result back in a {o!r} object, the implementation in {obj_kind(hg, ret)!r}")
+        # the model WITH the metadata tables (`HGM`): content and tables of the argument afterwards and of the result
+        if mv_before[0] != "exc" and (many or len(draws) == 1):
+            kc = slot_meaning(case, "k", case["k"], py_loop) if many else None
+            mcmd = (f"addedgesM {int(inplace)} {kc} {opt(order)} {opt(size)} {hgxv.enc_lists(draws)}" if many
+                    else f"addedgeM {int(inplace)} {opt(order)} {opt(size)} {hgxv.enc_list(draws[0])}")
+            am = drv.batch([load_line(before), loadm_line(mv_before), mcmd])[2]
+            wm = call_result_m(hg, ret, rank)
+            ctx.count("metadata_model_lines")
+            if am != wm:
+                ctx.disagree(case, f"{mcmd.split()[0]}: model {am!r}, implementation {wm!r}")
     if not inplace:
         check_independent(ctx, case, hg, ret, rank, before, before_inc, what)
 
@@ -1321,6 +1470,7 @@ def check_shuffle(ctx, drv, case, secs=8.0):
     if st0 == "timeout":
         return "timeout"
     before = snapshot(hg, rank)
+    mv_before = meta_view(hg, rank)
     before_inc = incidence_view(hg)
     kw = dict(case["kwargs"])
     kinds = case.get("kinds", {})
@@ -1390,6 +1540,11 @@ def check_shuffle(ctx, drv, case, secs=8.0):
             a = drv.batch([load_line(before), cmd + "- -"])[1]
             if a.startswith("rej") != (st == "exc"):
                 ctx.disagree(case, f"implementation {'rejects' if st == 'exc' else 'accepts'}, model answers {a[:80]!r}")
+            if st == "exc" and not allo and not vals:
+                e = drv.ask(f"argerr {opt(order)} {opt(size)} {pn} {pd}")
+                ctx.count("validation_paths_compared")
+                if e != err_code(ret, ARG_MESSAGES):
+                    ctx.disagree(case, f"validation: the model's first failing check is {e!r}, the implementation raised {ret!r}")
         return
     after_arg = snapshot(hg, rank)
     out = after_arg if inplace else (snapshot(ret, rank) if ret is not None else None)
@@ -1461,9 +1616,26 @@ def check_shuffle(ctx, drv, case, secs=8.0):
     ctx.count("shuffle_p0", 1 if pn == 0 else 0)
     ctx.count("retyped_shuffle", 1 if vals else 0)
     ctx.count("labels_" + spec.get("label_kind", "int"))
+    # the metadata tables: the property only speaks of the ARGUMENT here ("with inplace=False leave their argument
+    # untouched"); the tables of the result are compared with the model
+    check_meta(ctx, case, what, mv_before, hg, ret, rank, inplace, False)
+    ctx.count("instances_with_hypergraph_md", 1 if mv_before[0] != "exc" and mv_before[1] else 0)
+    ctx.count("instances_with_incidence_md", 1 if mv_before[0] != "exc" and mv_before[2] else 0)
     if drv is not None:
         shuffle_correspondence(ctx, drv, case, hg, ret, rank, before, log, parts, okpat, cmd, kw, allo, inplace,
                                sizes_order, cur_by_size, targets, what)
+        if okpat and mv_before[0] != "exc" and len(parts) == (len(sizes_order) if allo else 1):
+            if allo:
+                mcmd = (f"shuffleallM {int(inplace)} {pn} {pd} {hgxv.enc_list(sizes_order)} "
+                        + hgxv.enc_lists([p_["idx"] for p_ in parts]) + " " + hgxv.enc_listss([p_["choices"] for p_ in parts]))
+            else:
+                mcmd = (f"shuffleM {int(inplace)} {opt(order)} {opt(size)} {pn} {pd} "
+                        + hgxv.enc_list(parts[0]["idx"]) + " " + hgxv.enc_lists(parts[0]["choices"]))
+            am = drv.batch([load_line(before), loadm_line(mv_before), mcmd])[2]
+            wm = call_result_m(hg, ret, rank)
+            ctx.count("metadata_model_lines")
+            if am != wm:
+                ctx.disagree(case, f"{mcmd.split()[0]}: model {am!r}, implementation {wm!r}")
     if not inplace:
         check_independent(ctx, case, hg, ret, rank, before, before_inc, what)
 
